@@ -335,3 +335,37 @@ func TestSelectDistinct(t *testing.T) {
 		t.Errorf("all=%d distinct=%d err=%v", len(all.Rows), len(one.Rows), err)
 	}
 }
+
+func TestOnConflictDoNothing(t *testing.T) {
+	db := NewDB()
+	if err := db.ExecScript(`CREATE TABLE l (a integer NOT NULL, b text NOT NULL); ALTER TABLE l ADD UNIQUE(a);`); err != nil {
+		t.Fatal(err)
+	}
+	sdb := NewServer(db).Open()
+	for i, q := range []string{
+		`INSERT INTO l (a, b) VALUES (1, 'x') ON CONFLICT DO NOTHING;`,
+		`INSERT INTO l (a, b) VALUES (1, 'y') ON CONFLICT DO NOTHING;`,
+		`INSERT INTO l (a, b) VALUES (1, 'z') ON CONFLICT (a) DO NOTHING;`,
+	} {
+		res, err := sdb.Exec(q)
+		if err != nil {
+			t.Fatal(q, err)
+		}
+		if n, _ := res.RowsAffected(); (i == 0) != (n == 1) {
+			t.Fatalf("%s: %d rows affected", q, n)
+		}
+	}
+	var b string
+	if err := sdb.QueryRow(`SELECT b FROM l WHERE a = 1;`).Scan(&b); err != nil || b != "x" {
+		t.Fatalf("kept row: %q, %v", b, err)
+	}
+	if _, err := sdb.Exec(`INSERT INTO l (a, b) VALUES (1, 'y') ON CONFLICT (b) DO NOTHING;`); err == nil {
+		t.Fatal("a conflict target without a unique constraint is accepted")
+	}
+	if _, err := sdb.Exec(`INSERT INTO l (a, b) VALUES (1, 'y');`); err == nil {
+		t.Fatal("plain duplicate accepted")
+	}
+	if err := sdb.QueryRow(`INSERT INTO l (a, b) VALUES (1, 'q') ON CONFLICT DO NOTHING RETURNING b;`).Scan(&b); err != sql.ErrNoRows {
+		t.Fatalf("RETURNING of a skipped insert: %v", err)
+	}
+}
